@@ -200,6 +200,9 @@ class MCMC(Identifiable, Runnable):
                 optionals["checkpoint"] = "checkpoint.json"
             elif isinstance(data["checkpoint"], str):
                 optionals["checkpoint"] = data["checkpoint"]
+            else:
+                # "checkpoint": false -- no checkpointing
+                optionals["checkpoint"] = None
         else:
             optionals["checkpoint"] = "checkpoint.json"
 
